@@ -67,7 +67,16 @@ def rep_case(draw, max_dim=5, max_gens=4, min_gens=1, min_dim=1, kinds=("real", 
     mats = [draw(matrix(n, kind, mf)) for _ in range(k)]
     names = draw(names_single(k))
     idt = bool(kind == "int" and intdtype and draw(st.integers(0, 2)) == 0)
-    return dict(n=n, kind=kind, names=names, mats=mats, intdtype=idt)
+    c = dict(n=n, kind=kind, names=names, mats=mats, intdtype=idt)
+    if kind == "complex" and k >= 2 and draw(st.booleans()):
+        # a complex representation with some REAL generators (float64 arrays), the one
+        # assigned last included: rep.dtype is only the dtype of the last assignment
+        real = [False] + [draw(st.booleans()) for _ in range(k - 2)] + [True]
+        for i, r in enumerate(real):
+            if r:
+                mats[i] = [[[float(x), 0.0] for x in row] for row in draw(matrix(n, "real", mf))]
+        c["realgens"] = real
+    return c
 
 
 def letters_of(names):
@@ -124,6 +133,8 @@ def build(case, cls=None, names=None, **kw):
     mats = []
     for name, m in zip(names or case["names"], case["mats"]):
         M = decode(m, case["kind"], case.get("intdtype", False))
+        if case.get("realgens") and case["realgens"][len(mats)]:
+            M = np.real(M).astype(float)
         rep[name] = M.copy()
         L.assign(name, M)
         mats.append(M)
